@@ -57,6 +57,29 @@ func SliceRangeLoops(fn *ssa.Function) []*RangeLoop {
 		if !ok || phi.Block() != b {
 			continue
 		}
+		isHd0 := false
+		for _, p := range b.Preds {
+			if b.Dominates(p) {
+				isHd0 = true
+			}
+		}
+		// range over an array value: the bound is the constant length and the element is read with t[i]
+		if k, isC := bo.Y.(*ssa.Const); isC && isHd0 {
+			var arr ssa.Value
+			for blk := range NaturalLoop(b) {
+				for _, in := range blk.Instrs {
+					if ix, ok := in.(*ssa.Index); ok && ix.Index == ssa.Value(inc) {
+						if at, ok := ix.X.Type().Underlying().(*types.Array); ok && at.Len() == k.Int64() {
+							arr = ix.X
+						}
+					}
+				}
+			}
+			if arr != nil {
+				out = append(out, &RangeLoop{Header: b, Body: b.Succs[0], Exit: b.Succs[1], Over: arr, Index: phi, Blocks: NaturalLoop(b)})
+			}
+			continue
+		}
 		ln, ok := bo.Y.(*ssa.Call)
 		if !ok {
 			continue
